@@ -58,6 +58,8 @@ ODD_AMOUNTS = ['1e3', '1E-2', '1_0', '1__0', '_1', '1_', '1_000.5_0', '1e999', '
                '1.797693134862315807e308', '1.797693134862315808e308', '2.4703282292062327e-324', '2.4703282292062328e-324',
                ' 5', '5　', '1 000', '\x1c5', '5\t', '+5', '005', '1e+05', '1E5', '($1,234.56)', '(1.234,56 €)',
                '١٢', '１２.５', '5²', 'five', '-', '+', 'e5', '.e5', '1.e5', '0e5', '1e0', '-0e0', '(0)', '$0.00']
+FUZZ_TOKENS = ['0', '1', '5', '12', '007', '.', ',', '_', 'e', 'E', '+', '-', ' ', '(', ')', '$', '€', '£', 'inf', 'nan', 'Infinity',
+               '\t', 'e5', 'e-3', '.5', '1,000', '1.000', '\xa0', '\x1c', 'INF', 'x']
 NONFINITE = ['nan', 'NaN', 'inf', '-inf', 'Infinity', '+INF', '-nan', '(inf)', '$nan', 'iNfInItY']
 ZEROS = ['0', '-0.00', '0.0', '+0', '0e9', '(0.00)', '$0', '.0', '0.', '00']
 BAD_AMOUNTS = ['abc', '', ' ', 'N/A', '--', '1__0', '12abc']
@@ -215,7 +217,7 @@ def gen_row(rnd, lay):
     regexk = lay['kind'] == 'regex'
     n = len(roles)
     kind = rnd.choices(['good', 'short', 'long', 'blankline', 'baddate', 'blankdesc', 'odd', 'nonfinite', 'zero', 'badamount',
-                        'blankdate'], [46, 8, 5, 4, 6, 5, 12, 4, 4, 4, 2])[0]
+                        'blankdate', 'fuzz'], [44, 8, 5, 4, 6, 5, 10, 4, 4, 4, 2, 8])[0]
     if kind == 'blankline':
         return {'blank': True, 'kind': kind, 'truth': 'reject'}
     cells, caps = [], {}
@@ -236,6 +238,8 @@ def gen_row(rnd, lay):
         elif r == 'amount':
             if kind == 'odd':
                 c, truth = rnd.choice(ODD_AMOUNTS), None
+            elif kind == 'fuzz':       # random strings over the alphabet of float() / parse_amount
+                c, truth = ''.join(rnd.choice(FUZZ_TOKENS) for _ in range(rnd.randint(1, 6))), None
             elif kind == 'nonfinite':
                 c, truth = rnd.choice(NONFINITE), 'reject'
             elif kind == 'zero':
@@ -271,6 +275,8 @@ def gen_row(rnd, lay):
         if desc_txt is not None:
             desc_txt = desc_txt.replace('|', '/').replace('\n', ' ').replace('\r', ' ').strip() if lay['mode'] != 'template' else \
                 ''.join(caps[v] if k == 'ref' else v.replace('{{', '{').replace('}}', '}') for k, v in lay['tmpl_pieces'])
+    if desc_txt == '' and truth == 'accept':
+        truth = 'reject'           # a cell that is blank once tokenised
     req = [i for i, r in enumerate(roles) if r not in ('_', '*')]
     max_col = max(req)
     if kind == 'short':
@@ -542,35 +548,41 @@ def shrink(case, sig):
 # =====================================================================================================
 # model side (evaluated inside Coq)
 # =====================================================================================================
-HEADER = """From Coq Require Import String Ascii.
-From Coq Require Import List.
+HEADER = """From Coq Require Import List Uint63.
 From Tally Require Import C05.Model C05.Cases.
 Import ListNotations.
-Open Scope string_scope.
 """
-# Case encoding (decoded by coq/theories/C05/Cases.v): tree ::= '(' tree* ')' | escaped-bytes ';'
-_PLAIN = {c for c in range(32, 127)} - set(b'();~"')
+# Case encoding (decoded by coq/theories/C05/Cases.v): tree ::= '(' tree* ')' | escaped-bytes ';'   ('~hh' escapes);
+# the bytes travel packed 7 per primitive integer.
+_ESC = set(b'();~')
 
 
 def leaf(s):
     b = s.encode('utf-8') if isinstance(s, str) else str(s).encode()
-    return ''.join(chr(c) if c in _PLAIN else '~%02x' % c for c in b) + ';'
+    return b''.join(b'~%02x' % c if c in _ESC else bytes([c]) for c in b) + b';'
 
 
 def node(*xs):
-    return '(' + ''.join(xs) + ')'
+    return b'(' + b''.join(xs) + b')'
 
 
 def lst(xs):
-    return '(' + ''.join(xs) + ')'
+    return b'(' + b''.join(xs) + b')'
 
 
 def opt(x, f=leaf):
-    return '()' if x is None else '(' + f(x) + ')'
+    return b'()' if x is None else b'(' + f(x) + b')'
 
 
 def tbool(x):
-    return '1;' if x else '0;'
+    return b'1;' if x else b'0;'
+
+
+def packed(b):
+    n = len(b)
+    b = b + b'\0' * (-n % 7)
+    ints = ';'.join(str(int.from_bytes(b[i:i + 7], 'big')) for i in range(0, len(b), 7))
+    return f'({n}%nat, [{ints}]%uint63)'
 
 
 def pow2_repr(fr):
@@ -630,7 +642,7 @@ def t_input(case, r):
         return node(leaf('C'), lst(lst(leaf(c) for c in rec) for rec in lib['records']))
     ls = []
     for line, g in zip(lib['lines'], lib['groups']):
-        ls.append(node(leaf(line), '()' if g is None else node(lst(opt(c) for c in g))))
+        ls.append(node(leaf(line), b'()' if g is None else node(lst(opt(c) for c in g))))
     return node(leaf('R'), lst(ls))
 
 
@@ -640,7 +652,7 @@ def t_expected(r):
         return node(leaf('X')) if full['error'] in ('AttributeError', 'KeyError') else None
     es = []
     for t in full['txns']:
-        fld = '()' if t['field'] is None else node(lst(node(leaf(k), leaf(v)) for k, v in sorted(map(tuple, t['field']))))
+        fld = b'()' if t['field'] is None else node(lst(node(leaf(k), leaf(v)) for k, v in sorted(map(tuple, t['field']))))
         es.append(node(leaf(t['date']), leaf(t['desc']), t_eamount(t['amount']), leaf(t['source']), fld, opt(t['location']),
                        tbool(t['is_credit'])))
     return node(leaf('E'), lst(es))
@@ -700,10 +712,10 @@ def model_check(items, name='C05'):
         rows.append(t)
         idx.append(i)
     bad = []
-    CH = 300
+    CH = max(50, min(400, (len(rows) + 3) // 4))
 
     def one(off):
-        body = 'Definition cases : list string := [\n' + ';\n'.join('"' + x + '"' for x in rows[off:off + CH]) + \
+        body = 'Definition cases : list (nat * list int) := [\n' + ';\n'.join(packed(x) for x in rows[off:off + CH]) + \
                '\n].\nEval vm_compute in check cases.\n'
         return off, run_cases(f'{name}_{off // CH}', HEADER, body)
     from concurrent.futures import ThreadPoolExecutor
@@ -741,6 +753,8 @@ def main(tier):
         'FormatSpec is taken as resolve_source_format built it (format-string parsing is property C18)',
         'C05/Model.v tree_variant = as_code: the unchanged tree keeps non-finite amounts and crashes on an unmatched regex group; '
         'the full theorems hold for variant fixed (= proposed_fixes/C05-*.diff)']
+    import time as _t
+    phases, _t0 = {}, _t.time()
     tfails = regen_gen()
     res = run.proof_step(COQ_FILES, extra_trusted=[
         'tools/c05_amount2coq.py (translator of parse_amount literals, fail closed)',
@@ -753,14 +767,18 @@ def main(tier):
     if res['hygiene']:
         broken.append({'kind': 'hygiene', 'obligation': 'no Admitted/Axiom', 'detail': res['hygiene']})
 
+    phases['proofs'] = round(_t.time() - _t0, 1)
+    _t0 = _t.time()
     rnd = random.Random(run.seed * 7919 + 5)
-    n = 1600 if tier == 'quick' else 40000
+    n = 2400 if tier == 'quick' else 30000
     cases = corpus_cases() + [gen_case(rnd) for _ in range(n)]
-    results = []
-    B = 2000
-    for off in range(0, len(cases), B):
-        results += run_cases_impl(cases[off:off + B])
+    from concurrent.futures import ThreadPoolExecutor
+    B = max(1, min(2000, (len(cases) + 3) // 4))
+    with ThreadPoolExecutor(max_workers=4) as ex:          # <= 4 implementation processes at a time
+        results = [r for part in ex.map(run_cases_impl, [cases[off:off + B] for off in range(0, len(cases), B)]) for r in part]
 
+    phases['implementation'] = round(_t.time() - _t0, 1)
+    _t0 = _t.time()
     discards, failing, comparable = {}, [], []
     reasons_hist, kinds_hist = {}, {}
     n_rows = n_accepted = 0
@@ -791,7 +809,7 @@ def main(tier):
     # ---- model vs implementation inside Coq ---------------------------------------------------------------
     model_idx = []
     if not tfails and res['ok']:
-        mc = comparable if tier == 'thorough' else comparable[:2000]
+        mc = comparable if tier == 'thorough' else comparable[:3000]
         bad, model_idx, err = model_check(mc)
         ob = 'model_vs_impl(C05.Model.parse, parsers.parse_generic_csv)'
         if bad is None:
@@ -801,6 +819,8 @@ def main(tier):
             broken.append({'kind': 'broken-correspondence', 'obligation': ob,
                            'detail': {'case': slim(cases[j]), 'file_text': file_text(cases[j], cases[j]['rows']),
                                       'implementation': results[j]['full'], 'spec': results[j]['spec'], 'n': len(bad)}})
+    phases['model_in_coq'] = round(_t.time() - _t0, 1)
+    _t0 = _t.time()
     # ---- report failing laws (shrunk, one per signature) ------------------------------------------------
     by_sig = {}
     for i, laws in failing:
@@ -808,7 +828,8 @@ def main(tier):
         by_sig.setdefault(sig, []).append(i)
     for sig, idxs in sorted(by_sig.items(), key=lambda kv: str(kv[0])):
         i = min(idxs, key=lambda j: len(cases[j]['rows']))
-        small = shrink(cases[i], sig) if len(by_sig) <= 6 else cases[i]
+        listed = any(f.get('status') == 'finding' and f.get('signature') == sig for f in run.findings)
+        small = shrink(cases[i], sig) if (len(by_sig) <= 6 and not listed) else cases[i]    # known findings: no need to shrink
         r = run_cases_impl([small])[0]
         laws = oracle(small, r)
         run.violation('law', {'kind': 'counterexample', 'case': slim(small), 'file_text': file_text(small, small['rows']),
@@ -836,7 +857,7 @@ def main(tier):
         'files': len(cases), 'rows': n_rows, 'transactions_read': n_accepted, 'row_kind_histogram': kinds_hist,
         'delimiter_histogram': reasons_hist, 'impl_law_cases': len(cases), 'model_vs_impl_cases_in_coq': len(model_idx),
         'discarded': discards, 'failing_by_signature': {str(k): len(v) for k, v in by_sig.items()},
-        'translation_failures': tfails})
+        'translation_failures': tfails, 'phase_seconds': phases})
     run.finish()
 
 
